@@ -27,7 +27,7 @@ from ..model import AnalysisError
 from ..x_taint import flow_taint, expr_tainted, HelperSummaries
 
 from ..x_http import norm_func
-from ..x_objalias import subst_object_aliases
+from ..x_objalias import subst_object_aliases, inline_constants, through_local
 
 # private helpers that the rules model by name (sanitisers / summarised effects) and therefore must stay calls
 KEEP_CALLS = {"_format_chunk", "_convert_header_value", "_clear_representation_headers", "_can_keep_alive", "_compressible_type",
@@ -38,7 +38,7 @@ def F(ck, relpath, qualname):
     """The anchored function with its private same-file helpers inlined (function splitting is followed, depth 3)."""
     fi = ck.func(relpath, qualname)
     try:
-        return subst_object_aliases(norm_func(ck.repo, fi, depth=3, no_inline=KEEP_CALLS))
+        return inline_constants(subst_object_aliases(norm_func(ck.repo, fi, depth=3, no_inline=KEEP_CALLS)))
     except AnalysisError:
         raise
     except Exception as e:  # the normaliser must never turn into a verdict
@@ -73,6 +73,27 @@ def _strips_slash(x: ast.AST):
     if isinstance(x, ast.Constant) and isinstance(x.value, str) and (x.value.startswith("//") or x.value.startswith("/\\")):
         return True  # a literal protocol-relative prefix is as bad as an unchecked request path
     return None
+
+
+class _TestView:
+    """A CFG test node whose expression has been looked through explaining locals (named booleans)."""
+
+    def __init__(self, n, expr):
+        self.kind, self.id, self.ast = n.kind, n.id, expr
+
+
+def _via_locals(fi, cleaner):
+    def cb(n, kind, tainted):
+        if n.kind == "test":
+            e = through_local(fi, n.ast)
+            pol = kind
+            while isinstance(e, ast.UnaryOp) and isinstance(e.op, ast.Not):
+                e = e.operand
+                pol = "false" if pol == "true" else "true"
+            return cleaner(_TestView(n, e), pol, tainted)
+        return cleaner(n, kind, tainted)
+
+    return cb
 
 
 def _guard_cleaner(n, kind, tainted):
@@ -159,8 +180,8 @@ def check_no_scheme(ck, fi):
     (``GET http://other.example/x/``) whose path does not start with "/": their redirect target must be
     anchored to this host by a literal leading "/" (or the path must be known to start with "/")."""
     sites = _redirect_sites(fi)
-    hs = HelperSummaries(ck.repo, fi, lambda h: _leading_slash_cleaner, (), make_slash_headed(fi), self_classes=("RequestHandler",))
-    states = flow_taint(fi, PATH_SOURCES, clean_on_edge=hs.cleaner(_leading_slash_cleaner), expr_hook=hs.expr_hook, on_node=hs.on_node)
+    hs = HelperSummaries(ck.repo, fi, lambda h: _via_locals(h, _leading_slash_cleaner), (), make_slash_headed(fi), self_classes=("RequestHandler",))
+    states = flow_taint(fi, PATH_SOURCES, clean_on_edge=hs.cleaner(_via_locals(fi, _leading_slash_cleaner)), expr_hook=hs.expr_hook, on_node=hs.on_node)
     for node, c in sites:
         target = q.arg(c, 0, "url")
         sts = states.get(node.id, [])
@@ -177,8 +198,8 @@ def _redirect_sites(fi):
 
 def check_path_redirects(ck, fi):
     sites = _redirect_sites(fi)
-    hs = HelperSummaries(ck.repo, fi, lambda h: _guard_cleaner, (), _strips_slash, self_classes=("RequestHandler", "StaticFileHandler"))
-    states = flow_taint(fi, PATH_SOURCES, clean_on_edge=hs.cleaner(_guard_cleaner), expr_hook=hs.expr_hook, on_node=hs.on_node)
+    hs = HelperSummaries(ck.repo, fi, lambda h: _via_locals(h, _guard_cleaner), (), _strips_slash, self_classes=("RequestHandler", "StaticFileHandler"))
+    states = flow_taint(fi, PATH_SOURCES, clean_on_edge=hs.cleaner(_via_locals(fi, _guard_cleaner)), expr_hook=hs.expr_hook, on_node=hs.on_node)
     n = 0
     for node, c in sites:
         target = q.arg(c, 0, "url")
@@ -241,7 +262,7 @@ def run(ck):
         sites = _redirect_sites(fi)
         if not sites:
             continue
-        states = flow_taint(fi, ("self.request",), sanitizers=ENCODERS, expr_hook=_strips_slash, clean_on_edge=_guard_cleaner)
+        states = flow_taint(fi, ("self.request",), sanitizers=ENCODERS, expr_hook=_strips_slash, clean_on_edge=_via_locals(fi, _guard_cleaner))
         for node, c in sites:
             target = q.arg(c, 0, "url")
             derived = target is not None and any(expr_tainted(target, t, ENCODERS, expr_hook=_strips_slash) for t in states.get(node.id, []))
